@@ -16,6 +16,7 @@ EXPLANATION = (
     "(or sum) of the per-point log-densities (inductive identity in normal form, counter from 1 by 1); the observation model is to_derivative(tcoeff_index, std) "
     "of the right marginal (per time point via vmap); the terminal loss is model.marginalise(marginals).logpdf([u]); the checks on std / posterior precede everything."
 )
+TRUSTED_VALUE_PRIMITIVES = ("lstsq_svd",)  # default solve of loss_lml_timeseries
 LEVEL = "other"
 TECHNIQUE = "abstract interpretation over the AST: Markov time typestate with an inductive scan check, value-numbering normal form for the running mean, provenance of slices and indices"
 LEVEL_TEXT = (
